@@ -431,6 +431,22 @@ def rule_pipeline(ctx, mir, rid="R04.6"):
         r.inst(fn, sample={"fn": fn, "stages": [g.split("::")[-1] for g in got]})
         if got != want:
             r.violate(fn, f"{fn.split('::')[-1]} runs {[g.split('::')[-1] for g in got]}, expected {[w.split('::')[-1] for w in want]}: selectors pending in a later stage (e.g. descendant selectors of open ancestors) are not evaluated for this start tag, so a selector's matches depend on which other selectors are registered", f.loc())
+    # the position to resume at after an attribute bail-out inside a jump set is the inner set's own recovery point
+    # (relative offset), not an absolute address
+    for nm, agg in (("SelectorMatchingVm::try_exec_jumps_without_attrs", "JumpPtr"), ("SelectorMatchingVm::try_exec_hereditary_jumps_without_attrs", "HereditaryJumpPtr")):
+        offs = []
+        for g in mir.fns:
+            if not g.key.startswith(nm):
+                continue
+            for b in g.blocks:
+                for st in b["stmts"]:
+                    if st["k"] == "assign" and st["rv"]["k"] == "agg" and (st["rv"].get("name") or "").endswith("::" + agg):
+                        d = dict(zip(st["rv"]["fields"], [g.deep(o) for o in st["rv"]["ops"]]))
+                        offs.append(d.get("offset"))
+        key = nm.split("::")[-1] + "|resume-offset"
+        r.inst(key, sample={"offset_operands": offs})
+        if len(offs) != 1 or not (offs[0] or "").endswith("recovery_point"):
+            r.violate(key, f"{nm.split('::')[-1]} resumes a bailed-out jump set at `{offs}` instead of the inner bail-out's recovery_point: the rest of that instruction set is skipped (or re-run), so `div > p` stops matching when `div > .x` is registered before it", None)
     ew = mir.fn("SelectorMatchingVm::exec_without_attrs")
     tries = [(bi, callee_key(t)) for bi, t in ew.calls(r"try_exec_(instr_set|jumps|hereditary_jumps)_without_attrs$")]
     tries.sort(key=lambda x: len(ew.dominators()[x[0]]))
